@@ -8,8 +8,11 @@ func checkC01(c *Ctx, r *Report) {
 		"(version, flag bits, counts compared with constants, header length 8/16, presence predicates), then executes the box's EncodeSW on the decoded abstract structure and compares, bit by bit, " +
 		"what is written with what was read (bit-provenance domain: every written bit must be the same input bit the decoder kept there, or a constant where the decoder discards). " +
 		"W-DR: the discarded/constant runs must be on the committed don't-care list (wire_tables.go). " +
-		"Decides that decoder and encoder agree on which field sits in which wire slot, with which width, under which guard, in which order, and that every kept bit is written back; " +
+		"O-STICKY: a box decoder that reads from a bits.SliceReader does not return a decoded box with a literal nil error unless the reader's accumulated error was tested, the declared size is validated against what is read, children are decoded by the container helpers, or the payload is one block parsed by an error-returning callee (W-DE presumes the bytes were there: a truncated box accepted with zero-filled fields re-encodes to other bytes). Decides that decoder and encoder agree on which field sits in which wire slot, with which width, under which guard, in which order, and that every kept bit is written back; " +
 		"does not decide boxes in the irregular table, numeric loop bounds, children contents (each child is its own obligation), or fixed-point-ness of normalisations."
 	wireAssumptions(r)
 	ruleWDE(c, r)
+	if n := ruleStickyError(c, r); n < 70 {
+		r.Undecided("O-STICKY", "scope", "", "box decoders that read from a bits.SliceReader not found")
+	}
 }
